@@ -538,8 +538,13 @@ class LoopExec:
         if isinstance(e, ast.UnaryOp) and isinstance(e.op, ast.Not):
             return not self.ev(e.operand)
         if isinstance(e, ast.BoolOp):
-            vals = [self.ev(v) for v in e.values]
-            return all(vals) if isinstance(e.op, ast.And) else any(vals)
+            # Python's value semantics: `a or b` is a when a is true, else b (evaluated left to right, short-circuit)
+            v = None
+            for x in e.values:
+                v = self.ev(x)
+                if bool(v) != isinstance(e.op, ast.And):
+                    return v
+            return v
         if isinstance(e, ast.IfExp):
             return self.ev(e.body) if self.ev(e.test) else self.ev(e.orelse)
         if isinstance(e, ast.Subscript):
@@ -582,6 +587,23 @@ class LoopExec:
                     if isinstance(c, ast.Constant) and isinstance(c.value, str):
                         txt = c.value
                         break
+                if txt is None:
+                    # a template kept in a module-level constant (or a class attribute of the templates class)
+                    root = self.fn
+                    while getattr(root, "_parent", None) is not None:
+                        root = root._parent
+                    for nm in [x.id for x in ast.walk(base) if isinstance(x, ast.Name)] + [x.attr for x in ast.walk(base) if isinstance(x, ast.Attribute)]:
+                        for st in ast.walk(root):
+                            if isinstance(st, ast.Assign) and any(isinstance(t, ast.Name) and t.id == nm for t in st.targets) \
+                                    and not isinstance(parent(st), ast.FunctionDef):
+                                for c in ast.walk(st.value):
+                                    if isinstance(c, ast.Constant) and isinstance(c.value, str):
+                                        txt = c.value
+                                        break
+                            if txt is not None:
+                                break
+                        if txt is not None:
+                            break
                 if txt is None:
                     raise AnalysisError("replay loop: format on a non-literal")
                 if "case" in txt:
